@@ -242,7 +242,8 @@ let handle_csigmut lineno line (r : reader) =
     if verifies then st.malleated_ok <- st.malleated_ok + 1
   end else begin
     if alias then st.aliases <- st.aliases + 1;
-    if not (c17_mon_sig_mutation omsg msg osig sg verifies) then
+    (* "accepted for the signer" = verify says so OR recover_pk yields the signer's key (the tower authenticates by recovery) *)
+    if not (c17_mon_sig_mutation omsg msg osig sg (verifies || rec_i = pk)) then
       mon_fail lineno line ("altered message/signature verifies for the signer [" ^ kind ^ "]")
   end;
   note_case line
